@@ -5,9 +5,11 @@ mod c03;
 mod c04;
 mod c05;
 mod c12;
+mod c15;
 mod c19;
 mod choice;
 mod engine;
+mod refbridge;
 mod refdiff;
 mod refmap;
 mod refmvn;
@@ -34,6 +36,9 @@ mod download {
 #[allow(dead_code, unused, deprecated, clippy::all)]
 #[path = "/repo/src/version_graph.rs"]
 mod version_graph;
+#[allow(dead_code, unused, deprecated, clippy::all)]
+#[path = "/repo/src/specialized_methods/mod.rs"]
+mod specialized_methods;
 
 pub const DEFAULT_SEED: u64 = 20260929;
 
@@ -86,6 +91,7 @@ fn dispatch(a: &Args, digest_only: bool) -> i32 {
         "C04" => drive(&c04::C04, a, digest_only),
         "C05" => drive(&c05::C05, a, digest_only),
         "C12" => drive(&c12::C12, a, digest_only),
+        "C15" => drive(&c15::C15, a, digest_only),
         "C19" => drive(&c19::C19, a, digest_only),
         other => {
             eprintln!("harness error: no engine for {other}");
